@@ -548,6 +548,15 @@ def _type_from_runtime(
 
 
 def make_type_var_value(tv: TypeVarLike, ctx: Context) -> TypeVarValue:
+    if ctx.is_being_evaluted(tv):
+        # A bound or constraint that mentions the type variable itself, e.g.
+        # TypeVar("V", "int", "List[V]"): do not evaluate it again inside itself.
+        return TypeVarValue(tv)
+    with ctx.add_evaluation(tv):
+        return _make_type_var_value(tv, ctx)
+
+
+def _make_type_var_value(tv: TypeVarLike, ctx: Context) -> TypeVarValue:
     if (
         isinstance(tv, (TypeVar, typing_extensions.TypeVar))
         and getattr(tv, "__bound__", None) is not None
